@@ -115,7 +115,7 @@ pub fn run_check(ctx: &Ctx) -> Report {
     let cases = ctx.pick(200_000u32, 6_000_000u32) / ctx.shards as u32;
     let seed = ctx.seed;
     let mut rep = par_shards(ctx.shards, rep, move |shard, r| {
-        let cfg = DiffCfg { prop: "C12", driver: "random-calls", profile: Profile::calls(), cases, max_len: 700, seed: seed.wrapping_mul(67_867_967) + shard as u64 };
+        let cfg = DiffCfg { prop: "C12", driver: "random-calls", profile: Profile::calls(), cases, max_len: 700, seed: seed.wrapping_mul(67_867_967) + shard as u64, layout: false };
         run_diff_tapes(r, &cfg, &nontrivial, &known);
     });
     for src in directed_texts() {
